@@ -617,6 +617,11 @@ def _race_c12(rng, tier):
             for t in range(nt):
                 pool = hi if (t + i) % 2 == 0 else lo
                 progs.append([{"op": "Set", "spec": rng.choice(pool + CS)} for _ in range(rng.choice([1, 1, 2]))])
+        if i % 3 == 1:
+            # push_temp_spec instead of set_new_spec in one of the racing calls (same duty: specification and gate
+            # must change together)
+            pr = rng.choice(progs)
+            pr[rng.randrange(len(pr))]["op"] = "Push"
         out.append(_conc(progs, [], "race", init=init, writer=({"on": True, "c": rng.choice([1, 3])} if i % 3 == 0 else None)))
     return out
 
